@@ -14,7 +14,7 @@ class Pair:
         self.facts = facts      # dict atom-name -> (lo,hi) for div/mod rewrites
 
 
-def run_pairs(rep, pid, pairs, header='#include "vf_common.hpp"\nusing namespace vf;', nchunks=16, keep=()):
+def run_pairs(rep, pid, pairs, header='#include "vf_common.hpp"\nusing namespace vf;', nchunks=16, keep=(), extra=(), readonly=(), pure=(), call_check=None):
     wd = C.workdir(pid)
     chunks = [pairs[i::nchunks] for i in range(nchunks)]
     chunks = [c for c in chunks if c]
@@ -35,7 +35,7 @@ def run_pairs(rep, pid, pairs, header='#include "vf_common.hpp"\nusing namespace
         ci, src, ch = job
         try:
             bc = C.emit_ir(src, src[:-4] + ".bc")
-            dump = C.irdump(bc, src[:-4] + ".json", keep=keep)
+            dump = C.irdump(bc, src[:-4] + ".json", keep=keep, extra=extra)
             return (ch, {f["name"]: f for f in dump["functions"]}, None)
         except C.AnalysisBroken as e:
             return (ch, None, str(e))
@@ -48,11 +48,13 @@ def run_pairs(rep, pid, pairs, header='#include "vf_common.hpp"\nusing namespace
         for p in ch:
             rep.count("obligations:" + p.rule)
             try:
-                facts = (lambda a, f=p.facts: f.get(a)) if p.facts else None
-                ia = PolyInterp(fns[p.ln], facts=facts)
+                facts = p.facts if callable(p.facts) else ((lambda a, f=p.facts: f.get(a)) if p.facts else None)
+                ia = PolyInterp(fns[p.ln], facts=facts, readonly=readonly, pure=pure)
                 ra = ia.run()
-                ib = PolyInterp(fns[p.rn], facts=facts)
+                ib = PolyInterp(fns[p.rn], facts=facts, readonly=readonly, pure=pure)
                 rb = ib.run()
+                if call_check:
+                    call_check(rep, p, ia, ib)
                 assumed |= ia.assumed | ib.assumed
             except (Unsupported, KeyError) as e:
                 rep.incon(p.rule, p.desc, "IR not supported: %s" % e)
